@@ -1,5 +1,5 @@
 (* PropC04.v — property C04: exact class lookup, unambiguous method lookup. *)
-From PG Require Import Base Mapping Spec Mapper CacheWriter CacheReader MapperProofs Domain WriterInv CacheProofs.
+From PG Require Import Base Mapping Spec Mapper CacheWriter CacheReader MapperProofs Domain WriterInv CacheProofs Roundtrip FileLevel.
 
 Theorem C04_class_mapper : forall ix rs c, wf_class_names rs = true ->
   m_remap_class (build ix rs) c = Sclass rs c.
@@ -21,6 +21,15 @@ Proof. intros rs c m Hd Hs. apply cache_method; assumption. Qed.
 Theorem C04_consistent : forall rs c m k o line file,
   Smethod rs c m = Some (k, o) -> Forall (fun fr => snd (fst (fst fr)) = o) (Sline rs c m line file).
 Proof. exact method_lines_consistent. Qed.
+
+(* whole files: class and method lookup depend only on the grammar lines of the file *)
+Theorem C04_file_independent : forall f1 f2 c m,
+  wf_file f1 = true -> wf_file f2 = true -> file_lines f1 = file_lines f2 ->
+  Sclass (recs (print_file f1)) c = Sclass (recs (print_file f2)) c /\
+  Smethod (recs (print_file f1)) c m = Smethod (recs (print_file f2)) c m.
+Proof. intros f1 f2 c m H1 H2 H. split.
+  - exact (Sclass_file_independent f1 f2 H1 H2 H c).
+  - exact (Smethod_file_independent f1 f2 H1 H2 H c m). Qed.
 
 Check C04_class_mapper : forall ix rs c, wf_class_names rs = true -> m_remap_class (build ix rs) c = Sclass rs c.
 Check C04_method_mapper : forall ix rs c m, wf_class_names rs = true -> m_remap_method (build ix rs) c m = Smethod rs c m.
